@@ -325,6 +325,10 @@ impl Iterator for ClosestBucketsIter {
     }
 }
 
+#[cfg(litep2p_verif)]
+#[path = "../../../verif/c14.rs"]
+pub(crate) mod verif_c14;
+
 #[cfg(test)]
 mod tests {
     use super::*;
